@@ -40,6 +40,7 @@ def lines : List String :=
   (disciplineViolations facts).map (violLine "DISCIPLINE")
   ++ (balanceViolations facts).map (violLine "BALANCE")
   ++ (reacquireViolations facts).map (violLine "REACQUIRE")
+  ++ (sectionViolations facts).map (violLine "SECTIONS")
   ++ (shapeViolations facts).map (fun s => "SHAPE " ++ s.1 ++ " nestedLockOps=" ++ toString s.2.1 ++ " closures=" ++ toString s.2.2)
   ++ (lockOrder facts).eraseDups.map (fun e => "ORDER " ++ resStr e.1 ++ " -> " ++ resStr e.2)
   ++ ["ACYCLIC " ++ toString (acyclicB (lockOrder facts))]
